@@ -980,6 +980,15 @@ FORMS = [
         ("r = +nrm2(x)", "*rp = +blas::nrm2(x);"),
         ("r = abs(x)", "*rp = abs(x);"),
     ]),
+    ("nrm2 -> array<T,0>", "LP", "VEC", "multi::array<double, 0> r; blas::nrm2_n(x.begin(), n, r.base());", [
+        ("array<T,0> r = nrm2(x)", "multi::array<double, 0> r = blas::nrm2(x);"),
+        ("array<T,0> r; r = nrm2(x)", "multi::array<double, 0> r; r = blas::nrm2(x);"),
+    ]),
+    ("dot -> array<T,0>", "LP", "VEC", "multi::array<double, 0> r; blas::dot_n(x.begin(), n, y.begin(), r.base());", [
+        ("array<T,0> r = dot(x, y)", "multi::array<double, 0> r = blas::dot(x, y);"),
+        ("array<T,0> r; r = dot(x, y)", "multi::array<double, 0> r; r = blas::dot(x, y);"),
+        ("dot(x, y, r) with r 0-D", "multi::array<double, 0> r; blas::dot(x, y, r);"),
+    ]),
     ("asum", "LP", "VEC", "blas::asum_n(x.begin(), n, rp);", [
         ("asum(x, r)", "blas::asum(x, *rp);"),       # r = asum(x) does not compile for view operands (its proxy takes the address of the view)
     ]),
@@ -1033,6 +1042,7 @@ FORM_ROUTINES = {
 
 
 FORM_OUTPUTS = {"zgemv_": 9}
+FORM_HEAP = ("_Znwm", "_ZdlPv", "_ZdlPvm")      # storage of a 0-dimensional result array: opaque handles, not compared
 
 
 def forms_rule(rep, wd):
@@ -1071,7 +1081,7 @@ def forms_rule(rep, wd):
             rep.break_("R13.forms: the forms of %s do not compile: %s" % (fam, (m.group(1) if m else err)[:200]))
             continue
         ev = irval.Evaluator(*mod)
-        ev.record_external = lambda c: c in FORM_ROUTINES
+        ev.record_external = lambda c: c in FORM_ROUTINES or c in FORM_HEAP
 
         def model(callee, vals, derefs, idx):
             # output parameter of the routine (the result vector of the 1 x n matrix-vector form of the complex dot product)
@@ -1103,6 +1113,9 @@ def forms_rule(rep, wd):
             r = ev.run(fn, args, signs)
             calls = []
             for callee, vals, der, stk in ev.extcalls:
+                if callee in FORM_HEAP:
+                    calls.append((callee, ()))
+                    continue
                 norm = []
                 for i, v in enumerate(vals):
                     w = FORM_ROUTINES[callee].get(i)
